@@ -683,10 +683,6 @@ def knot_removal(degree, knotvector, ctrlpts, u, **kwargs):
     if num < 1:
         return ctrlpts
 
-    # Initialize variables
-    first = r - degree
-    last = r - s
-
     # Don't change input variables, prepare new ones for updating
     ctrlpts_new = deepcopy(ctrlpts)
 
@@ -700,90 +696,60 @@ def knot_removal(degree, knotvector, ctrlpts, u, **kwargs):
     else:
         tol *= max(1.0, max(abs(c) for pt in ctrlpts for c in pt))
 
-    # Initialize temp array for storing new control points (2p + 2 entries are used when a knot of multiplicity p + 1 is removed)
-    if is_volume:
-        temp = [[[] for _ in range(len(ctrlpts_new[0]))] for _ in range((2 * degree) + 2)]
-    else:
-        temp = [[] for _ in range((2 * degree) + 2)]
+    def solve(pt, known, coeff, div):
+        # (pt - coeff * known) / div for a point or for a row of points
+        if is_volume:
+            return [[(c - coeff * k) / div for c, k in zip(p1, k1)] for p1, k1 in zip(pt, known)]
+        return [(c - coeff * k) / div for c, k in zip(pt, known)]
 
-    # Loop for Eqs 5.28 & 5.29
-    for t in range(0, num):
-        temp[0] = deepcopy(ctrlpts_new[first - 1])
-        temp[last - first + 2] = deepcopy(ctrlpts_new[last + 1])
-        i = first
-        j = last
-        ii = 1
-        jj = last - first + 1
-        remflag = False
+    def deviation(pt, left, right, alpha):
+        # distance between pt and alpha * right + (1 - alpha) * left for a point or for a row of points
+        if is_volume:
+            return max(linalg.point_distance(p1, [(alpha * c2) + ((1.0 - alpha) * c1) for c1, c2 in zip(l1, r1)])
+                       for p1, l1, r1 in zip(pt, left, right))
+        return linalg.point_distance(pt, [(alpha * c2) + ((1.0 - alpha) * c1) for c1, c2 in zip(left, right)])
 
-        # Compute control points for one removal step
-        while j - i > t:
-            alpha_i = knot_removal_alpha_i(u, degree, tuple(knotvector), t, i)
-            alpha_j = knot_removal_alpha_j(u, degree, tuple(knotvector), t, j)
-            if is_volume:
-                for idx in range(len(ctrlpts[0])):
-                    temp[ii][idx] = [(cpt - (1.0 - alpha_i) * ti) / alpha_i for cpt, ti
-                                     in zip(ctrlpts_new[i][idx], temp[ii - 1][idx])]
-                    temp[jj][idx] = [(cpt - alpha_j * tj) / (1.0 - alpha_j) for cpt, tj
-                                     in zip(ctrlpts_new[j][idx], temp[jj + 1][idx])]
+    # The knot is removed one copy at a time (Eq 5.28 with t = 0 on the knot vector left by the previous removal)
+    kv = list(knotvector)
+    for _ in range(0, num):
+        first = r - degree
+        last = r - s
+        cut = int((first + last) / 2)  # control point which is dropped when the knot is not removable
+        if last >= first:
+            # P[i] = alpha_i * Q[i] + (1 - alpha_i) * Q[i - 1] for i = first, ..., last determines the new points Q[first .. last - 1]
+            # and leaves one equation as the removability test. Q is computed from the left (division by alpha_i) up to the index
+            # "mid" and from the right (division by 1 - alpha_i) down to it. Meeting in the middle of the index range, as Algorithm
+            # A5.8 does, amplifies the round-off errors by (alpha / (1 - alpha))^(degree / 2) when the knot is close to one of its
+            # neighbours; therefore the meeting point is chosen according to the size of the coefficients.
+            alphas = [knot_removal_alpha_i(u, degree, tuple(kv), 0, i) for i in range(first, last + 1)]
+            mid, growth = 0, None
+            for m in range(len(alphas)):
+                g_left = g_right = 1.0
+                for alpha in alphas[:m]:
+                    g_left /= alpha
+                for alpha in alphas[m + 1:]:
+                    g_right /= (1.0 - alpha)
+                if growth is None or max(g_left, g_right) < growth:
+                    mid, growth = m, max(g_left, g_right)
+            mid += first
+            pts = {first - 1: ctrlpts_new[first - 1], last: ctrlpts_new[last + 1]}
+            for i in range(first, mid):
+                pts[i] = solve(ctrlpts_new[i], pts[i - 1], 1.0 - alphas[i - first], alphas[i - first])
+            for i in range(last, mid, -1):
+                pts[i - 1] = solve(ctrlpts_new[i], pts[i], alphas[i - first], 1.0 - alphas[i - first])
+            # Check if the knot is removable and update new control points array
+            if deviation(ctrlpts_new[mid], pts[mid - 1], pts[mid], alphas[mid - first]) <= tol:
+                ctrlpts_new = ctrlpts_new[0:first] + [pts[i] for i in range(first, last)] + ctrlpts_new[last + 1:]
             else:
-                temp[ii] = [(cpt - (1.0 - alpha_i) * ti) / alpha_i for cpt, ti in zip(ctrlpts_new[i], temp[ii - 1])]
-                temp[jj] = [(cpt - alpha_j * tj) / (1.0 - alpha_j) for cpt, tj in zip(ctrlpts_new[j], temp[jj + 1])]
-            i += 1
-            j -= 1
-            ii += 1
-            jj -= 1
-
-        # Check if the knot is removable
-        if j - i < t:
-            if is_volume:
-                if linalg.point_distance(temp[ii - 1][0], temp[jj + 1][0]) <= tol:
-                    remflag = True
-            else:
-                if linalg.point_distance(temp[ii - 1], temp[jj + 1]) <= tol:
-                    remflag = True
+                ctrlpts_new = ctrlpts_new[0:cut] + ctrlpts_new[cut + 1:]
         else:
-            alpha_i = knot_removal_alpha_i(u, degree, tuple(knotvector), t, i)
-            if is_volume:
-                ptn = [(alpha_i * t1) + ((1.0 - alpha_i) * t2) for t1, t2 in zip(temp[ii + t + 1][0], temp[ii - 1][0])]
-                if linalg.point_distance(ctrlpts_new[i][0], ptn) <= tol:
-                    remflag = True
-            else:
-                ptn = [(alpha_i * t1) + ((1.0 - alpha_i) * t2) for t1, t2 in zip(temp[ii + t + 1], temp[ii - 1])]
-                if linalg.point_distance(ctrlpts_new[i], ptn) <= tol:
-                    remflag = True
+            # A knot of multiplicity degree + 1: the control points on both sides of the discontinuity take each other's place
+            ctrlpts_new = ctrlpts_new[0:cut] + ctrlpts_new[cut + 1:]
 
-        # Check if we can remove the knot and update new control points array
-        if remflag:
-            i = first
-            j = last
-            while j - i > t:
-                ctrlpts_new[i] = deepcopy(temp[i - first + 1])
-                ctrlpts_new[j] = deepcopy(temp[j - first + 1])
-                i += 1
-                j -= 1
-
-        # Update indices
-        first -= 1
-        last += 1
-
-    # Fix indexing
-    t += 1
-
-    # Shift control points (refer to p.183 of The NURBS Book, 2nd Edition)
-    j = int((2*r - s - degree) / 2)  # first control point out
-    i = j
-    for k in range(1, t):
-        if k % 2 == 1:
-            i += 1
-        else:
-            j -= 1
-    for k in range(i+1, len(ctrlpts)):
-        ctrlpts_new[j] = ctrlpts_new[k]
-        j += 1
-
-    # Slice to get the new control points
-    ctrlpts_new = ctrlpts_new[0:-t]
+        # Update the knot vector, the span and the multiplicity
+        del kv[r]
+        r -= 1
+        s -= 1
 
     return ctrlpts_new
 
